@@ -315,6 +315,9 @@ type Frame struct {
 	fmtSlice  ssa.Value
 	inResolve bool
 	resolveState *State
+	defFrame     *Frame           // inlined closure: the frame that created it
+	defClosure   *ssa.MakeClosure // inlined closure: its MakeClosure
+	itK          *Term            // index of the iterator expansion in progress
 }
 
 type closureRef struct {
